@@ -77,8 +77,10 @@ def trisAt (v : Nat) (ts : List Tri) : List Tri := ts.filter (hasVert v)
 /-- The same with face identities (the search below works on slice indices). -/
 def facesAt (v : Nat) (fs : List Face) : List Face := fs.filter fun f => hasVert v f.2
 
-/-- `expandTri.SharesEdge(tris[visitIdx])` on faces with identity. -/
-def fanAdj (s t : Face) : Bool := sharesEdge s.2 t.2
+/-- `expandTri.inCommon(tris[visitIdx]) >= 2` on faces with identity: both faces contain the
+vertex, so they share an edge at it (coincident faces included; before fix 5660fd7 the test was
+`SharesEdge`, i.e. `== 2`, which never joined coincident faces). -/
+def fanAdj (s t : Face) : Bool := decide (inCommon s.2 t.2 ≥ 2)
 
 /-- The inner `for i := 0; i < len(unvisited); i++` loop of `SingularVertices` with its
 swap-with-last removal: returns (what stays unvisited, what was pushed — both in Go's order). -/
